@@ -454,6 +454,11 @@ func c06Run(env *core.Env, idx int) *core.CaseResult {
 	}
 	insert := func(rows []rm.Row) bool {
 		sql, ok := sqlx.InsertSQL(s.tname(), cols, rows)
+		if ok && len(cols) > 1 && r.Intn(3) == 0 {
+			// column list written in another order than the table's columns
+			sql, ok = sqlx.InsertSQLPerm(s.tname(), cols, rows, r.Perm(len(cols)))
+			res.Add("insert_sql_with_permuted_column_list", 1)
+		}
 		for _, row := range rows {
 			for _, c := range row {
 				if !c.Null && !gen.LitAccepted(c) {
